@@ -117,6 +117,10 @@ Section Proofs.
   Notation get_values := (@get_values code scope_of ns_escalation).
   Notation template_object := (template_object render scope_of ns_escalation).
   Notation reconcile_tmpl := (reconcile_tmpl render scope_of ns_escalation iv_res iv_opt).
+  Notation get_sourcex := (@get_sourcex code scope_of ns_escalation).
+  Notation get_valuesx := (@get_valuesx code scope_of ns_escalation).
+  Notation reconcilex := (reconcilex render scope_of ns_escalation iv_res iv_opt).
+  Notation passx := (passx render scope_of ns_escalation iv_res iv_opt).
   Notation pass := (pass render scope_of ns_escalation iv_res iv_opt).
   Notation do_step := (do_step render scope_of ns_escalation iv_res iv_opt).
   Notation run := (run render scope_of ns_escalation iv_res iv_opt).
@@ -238,7 +242,8 @@ Section Proofs.
       | None => evs = [EWatch (s_kind s)] /\ r = (if s_opt s then SrcSkip else SrcErr true) /\ w_store w' = w_store w
       | Some o => exists o', r = SrcFound o' /\ o_data o' = o_data o /\ o_label o' = true /\
                              lookup (nkey (src_key tns s)) (w_store w') = Some o' /\
-                             (evs = [EWatch (s_kind s)] \/ evs = [EWatch (s_kind s); EPatchLabel (nkey (src_key tns s))])
+                             (evs = [EWatch (s_kind s); ECacheHit (nkey (src_key tns s)) (o_data o')] \/
+                              evs = [EWatch (s_kind s); EPatchLabel (nkey (src_key tns s)) (o_data o')])
       end.
   Proof.
     unfold Template.get_source, pfbad. fold (src_key tns s). intros H.
@@ -260,7 +265,8 @@ Section Proofs.
 
   (** ** getValuesFromSources against the pure collection [scan] *)
   Definition src_event (tns : N) (srcs : list source) (e : ev) : Prop :=
-    exists s, In s srcs /\ pfbad tns s = false /\ (e = EWatch (s_kind s) \/ e = EPatchLabel (nkey (src_key tns s))).
+    exists s, In s srcs /\ pfbad tns s = false /\
+      (e = EWatch (s_kind s) \/ (exists d, e = ECacheHit (nkey (src_key tns s)) d) \/ (exists d, e = EPatchLabel (nkey (src_key tns s)) d)).
 
   Definition tracked (tns : N) (w : world) (s : source) : Prop :=
     watched (s_kind s) me (w_watch w) = true /\
@@ -296,8 +302,10 @@ Section Proofs.
       { intros Hb. rewrite Hb in Hcase. destruct Hcase as [_ Hc].
         destruct (lookup (nkey (src_key tns s)) (w_store w)).
         - destruct Hc as (o' & _ & _ & _ & _ & [-> | ->]); split; try discriminate.
-          + constructor; [exists s; repeat split; auto; now left|constructor].
-          + constructor; [exists s; repeat split; auto; now left|]. constructor; [|constructor]. exists s. repeat split; auto. now left.
+          + constructor; [exists s; repeat split; auto; now left|]. constructor; [|constructor].
+            exists s. split; [now left|]. split; [assumption|]. right; left. eauto.
+          + constructor; [exists s; repeat split; auto; now left|]. constructor; [|constructor].
+            exists s. split; [now left|]. split; [assumption|]. right; right. eauto.
         - destruct Hc as (-> & _). split; auto. constructor; [exists s; repeat split; auto; now left|constructor]. }
       cbn [Template.scan]. destruct (pfbad tns s) eqn:Eb.
       + destruct Hcase as (-> & -> & ->). injection H as <- <- <-. repeat split; auto using store_le_refl; try (intros kd o Hw'; exact Hw').
@@ -378,7 +386,7 @@ Section Proofs.
       template_object t cfg (w_env w) = TObj k body ->
       cache_get (w_store w1) k = Some ex -> copy_conds t ex = None ->
       rec_out w t w1 e1 (with_watch w1 (add_watch (k_kind k) me (w_watch w1)))
-        (e1 ++ [EWatch (k_kind k)]) t (rq_of retry) 4
+        (e1 ++ [EWatch (k_kind k); ECacheHit (nkey k) (o_data ex)]) t (rq_of retry) 4
   | RO_update cfg retry k body ex cs :
       scan (pfbad (t_ns t)) (w_store w) (t_ns t) (t_sources t) [] false = ScOk cfg retry ->
       Forall (tracked (t_ns t) w1) (t_sources t) ->
@@ -386,7 +394,7 @@ Section Proofs.
       cache_get (w_store w1) k = Some ex -> copy_conds t ex = Some cs -> update_res k = WOk ->
       rec_out w t w1 e1
         (with_store (with_watch w1 (add_watch (k_kind k) me (w_watch w1))) (upsert (nkey k) (updated_target ex body) (w_store w1)))
-        (e1 ++ [EWatch (k_kind k); EUpdate k body WOk])
+        (e1 ++ [EWatch (k_kind k); ECacheHit (nkey k) (o_data ex); EUpdate k body WOk])
         (set_invalid (set_ctrlof (set_conds t cs) (Some k)) 0) (rq_of retry) 0
   | RO_update_fail cfg retry k body ex cs r :
       scan (pfbad (t_ns t)) (w_store w) (t_ns t) (t_sources t) [] false = ScOk cfg retry ->
@@ -394,7 +402,7 @@ Section Proofs.
       template_object t cfg (w_env w) = TObj k body ->
       cache_get (w_store w1) k = Some ex -> copy_conds t ex = Some cs -> update_res k = r -> r <> WOk ->
       rec_out w t w1 e1 (with_watch w1 (add_watch (k_kind k) me (w_watch w1)))
-        (e1 ++ [EWatch (k_kind k); EUpdate k body r]) t (rq_of retry) 3.
+        (e1 ++ [EWatch (k_kind k); ECacheHit (nkey k) (o_data ex); EUpdate k body r]) t (rq_of retry) 3.
 
   (** What the source phase leaves behind. *)
   Record src_phase (w : world) (tns : N) (srcs : list source) (w1 : world) (e1 : list ev) : Prop := {
@@ -443,7 +451,7 @@ Section Proofs.
   Lemma src_events_no_writes tns srcs e1 : Forall (src_event tns srcs) e1 -> target_writes e1 = [].
   Proof.
     induction 1 as [|e l He _ IH]; [reflexivity|]. change (e :: l) with ([e] ++ l). rewrite target_writes_app, IH.
-    destruct He as (s & _ & _ & [-> | ->]); reflexivity.
+    destruct He as (s & _ & _ & [-> | [(d & ->) | (d & ->)]]); reflexivity.
   Qed.
 
   Lemma src_events_patches tns srcs e1 : Forall (src_event tns srcs) e1 ->
@@ -452,7 +460,7 @@ Section Proofs.
     induction 1 as [|e l He _ IH]; intros k Hin; [contradiction|].
     change (e :: l) with ([e] ++ l) in Hin. rewrite label_patches_app in Hin. apply in_app_or in Hin.
     destruct Hin as [Hin|Hin]; [|now apply IH].
-    destruct He as (s & Hs & Hb & [-> | ->]); cbn in Hin; [contradiction|].
+    destruct He as (s & Hs & Hb & [-> | [(d & ->) | (d & ->)]]); cbn in Hin; try contradiction.
     destruct Hin as [<-|[]]. eauto.
   Qed.
 
@@ -465,7 +473,7 @@ Section Proofs.
     induction 1 as [|e l He _ IH]; intros kd Hin; [contradiction|].
     change (e :: l) with ([e] ++ l) in Hin. rewrite watch_calls_app in Hin. apply in_app_or in Hin.
     destruct Hin as [Hin|Hin]; [|now apply IH].
-    destruct He as (s & Hs & Hb & [-> | ->]); cbn in Hin; [|contradiction].
+    destruct He as (s & Hs & Hb & [-> | [(d & ->) | (d & ->)]]); cbn in Hin; try contradiction.
     destruct Hin as [<-|[]]. eauto.
   Qed.
 
@@ -640,24 +648,24 @@ Section Proofs.
       repeat split; auto.
       + intros kd o Hw. apply watched_add_mono. auto.
       + intros kd o Hne'. rewrite watched_add, (Hso kd o Hne'). apply N.eqb_neq in Hne'. rewrite (N.eqb_sym me o), Hne', andb_false_r, orb_false_r. reflexivity.
-      + intros k0 Hin. apply (Hpatch [EWatch (k_kind k)] eq_refl k0). now right.
+      + intros k0 Hin. apply (Hpatch [EWatch (k_kind k); ECacheHit (nkey k) (o_data ex)] eq_refl k0). now right.
       + eauto.
       + right. exists cfg, retry. split; [assumption|]. split; [reflexivity|]. split.
         * eapply Forall_impl; [|exact Htr]. intros s Hs. now apply tracked_with_watch.
         * right; right; right; right. exists k, body.
-          destruct (Hwr [EWatch (k_kind k)]) as [_ ->]. repeat split; auto.
+          destruct (Hwr [EWatch (k_kind k); ECacheHit (nkey k) (o_data ex)]) as [_ ->]. repeat split; auto.
           right. exists ex. split; [assumption|now right].
     - (* update *)
       rewrite (update_ok_nkey _ Hur).
       repeat split; auto.
       + intros kd o Hw. apply watched_add_mono. auto.
       + intros kd o Hne. rewrite watched_add, (Hso kd o Hne). apply N.eqb_neq in Hne. rewrite (N.eqb_sym me o), Hne, andb_false_r, orb_false_r. reflexivity.
-      + intros k0 Hin. apply (Hpatch [EWatch (k_kind k); EUpdate k body WOk] eq_refl k0). now left.
+      + intros k0 Hin. apply (Hpatch [EWatch (k_kind k); ECacheHit k (o_data ex); EUpdate k body WOk] eq_refl k0). now left.
       + eexists. split; [reflexivity|]. unfold same_spec; cbn; auto 10.
       + right. exists cfg, retry. split; [assumption|]. split; [reflexivity|]. split.
         * eapply Forall_impl; [|exact Htr]. intros s Hs. apply tracked_with_tmpl. now apply tracked_after_write.
         * right; right; right; left. exists k, body, (updated_target ex body).
-          destruct (Hwr [EWatch (k_kind k); EUpdate k body WOk]) as [-> _]. repeat split; auto.
+          destruct (Hwr [EWatch (k_kind k); ECacheHit k (o_data ex); EUpdate k body WOk]) as [-> _]. repeat split; auto.
           -- eexists. split; [reflexivity|]. reflexivity.
           -- apply watched_add_same.
           -- now apply update_ok_admitted.
@@ -665,12 +673,12 @@ Section Proofs.
       repeat split; auto.
       + intros kd o Hw. apply watched_add_mono. auto.
       + intros kd o Hne'. rewrite watched_add, (Hso kd o Hne'). apply N.eqb_neq in Hne'. rewrite (N.eqb_sym me o), Hne', andb_false_r, orb_false_r. reflexivity.
-      + intros k0 Hin. apply (Hpatch [EWatch (k_kind k); EUpdate k body wr] eq_refl k0). now right.
+      + intros k0 Hin. apply (Hpatch [EWatch (k_kind k); ECacheHit (nkey k) (o_data ex); EUpdate k body wr] eq_refl k0). now right.
       + eauto.
       + right. exists cfg, retry. split; [assumption|]. split; [reflexivity|]. split.
         * eapply Forall_impl; [|exact Htr]. intros s Hs. now apply tracked_with_watch.
         * right; right; right; right. exists k, body.
-          destruct (Hwr [EWatch (k_kind k); EUpdate k body wr]) as [_ ->]. repeat split; auto.
+          destruct (Hwr [EWatch (k_kind k); ECacheHit (nkey k) (o_data ex); EUpdate k body wr]) as [_ ->]. repeat split; auto.
           -- destruct wr; try reflexivity. congruence.
           -- right. exists ex. split; [assumption|left; congruence].
   Qed.
@@ -1418,6 +1426,204 @@ Section Proofs.
     pose proof (calm_quiet_suffix suffix _ (calm_with_pending _ false Hc) Hq Hp) as (t' & k & d & o & H).
     exists t', k, d, o. repeat split; try tauto. apply o_label_true. tauto.
   Qed.
+
+  (** ** The environment of a render. [w_env] is what templateObject hands to the template; along every
+      history it is [view] of the sink state as it is NOW (stored environment + the HostedCluster of the
+      template's namespace now): no step makes it depend on anything earlier reconciles did. *)
+  Definition fresh (w : world) : Prop := w_env w = view (w_sink w).
+
+  Lemma get_source_sink w tns s w' evs r : get_source w tns s = (w', evs, r) -> w_sink w' = w_sink w /\ w_env w' = w_env w.
+  Proof.
+    unfold Template.get_source. destruct (pf_violation tns (s_kind s, s_ns s, s_name s) false); [intros H; injection H as <- _ _; auto|].
+    destruct (cache_get _ _); [intros H; injection H as <- _ _; auto|].
+    destruct (lookup _ _); [|destruct (s_opt s)]; intros H; injection H as <- _ _; auto.
+  Qed.
+  Lemma get_values_sink tns srcs : forall w cfg retry w' evs r, get_values w tns srcs cfg retry = (w', evs, r) ->
+    w_sink w' = w_sink w /\ w_env w' = w_env w.
+  Proof.
+    induction srcs as [|s rest IH]; intros w cfg retry w' evs r H; cbn in H; [injection H as <- _ _; auto|].
+    destruct (get_source w tns s) as [[w1 e1] sr] eqn:Es. destruct (get_source_sink _ _ _ _ _ _ Es) as [H1 H2].
+    destruct sr as [nf| |o].
+    - injection H as <- _ _. auto.
+    - destruct (get_values w1 tns rest cfg true) as [[w2 e2] res] eqn:E2. injection H as <- _ _.
+      destruct (IH _ _ _ _ _ _ E2). split; congruence.
+    - destruct (copy_items (s_items s) o cfg); [|injection H as <- _ _; auto].
+      destruct (get_values w1 tns rest d retry) as [[w2 e2] res] eqn:E2. injection H as <- _ _.
+      destruct (IH _ _ _ _ _ _ E2). split; congruence.
+  Qed.
+  Lemma reconcile_sink w t w' evs t' rq err : reconcile_tmpl w t = (w', evs, t', rq, err) -> w_sink w' = w_sink w /\ w_env w' = w_env w.
+  Proof.
+    unfold Template.reconcile_tmpl. destruct (get_values w (t_ns t) (t_sources t) [] false) as [[w1 e1] vr] eqn:Ev.
+    destruct (get_values_sink _ _ _ _ _ _ _ _ Ev) as [H1 H2]. intros H.
+    destruct vr; [injection H as <- _ _ _ _; auto|].
+    destruct (template_object t cfg (w_env w1)); try (injection H as <- _ _ _ _; auto; fail).
+    cbn [w_store with_watch] in H. destruct (cache_get (w_store w1) k).
+    - destruct (copy_conds t o); [|injection H as <- _ _ _ _; auto]. destruct (update_res k); injection H as <- _ _ _ _; auto.
+    - destruct (create_res (w_store w1) k); injection H as <- _ _ _ _; auto.
+  Qed.
+  Lemma pass_sink w w' r : pass w = (w', r) -> w_sink w' = w_sink w /\ w_env w' = w_env w.
+  Proof.
+    unfold Template.pass. destruct (w_tmpl w) as [t|]; [|intros H; injection H as <- _; auto].
+    destruct (t_del t); [destruct (t_fin t); intros H; injection H as <- _; auto|].
+    destruct (reconcile_tmpl _ _) as [[[[w1 e1] t1] rq] err] eqn:Er. destruct (reconcile_sink _ _ _ _ _ _ _ Er) as [H1 H2].
+    destruct (err =? 0); intros H; injection H as <- _; auto.
+  Qed.
+
+  (** the same for a pass with third parties and faults: they act on the API server's objects only *)
+  Lemma get_sourcex_facts a n w tns s w' evs r n' : get_sourcex a n w tns s = (w', evs, r, n') ->
+    w_sink w' = w_sink w /\ w_env w' = w_env w /\ w_tmpl w' = w_tmpl w /\ target_writes evs = [] /\ (r = SXSkip -> s_opt s = true).
+  Proof.
+    unfold Template.get_sourcex, req. destruct (pf_violation tns (s_kind s, s_ns s, s_name s) false);
+      [intros H; injection H as <- <- <- _; repeat split; auto; discriminate|].
+    destruct (cache_get _ _); [intros H; injection H as <- <- <- _; repeat split; auto; discriminate|].
+    cbn [w_store with_watch with_store].
+    destruct (adv_fault a n) as [[|]|].
+    - destruct (s_opt s) eqn:Eo; intros H; injection H as <- <- <- _; repeat split; auto; discriminate.
+    - intros H; injection H as <- <- <- _; repeat split; auto; discriminate.
+    - destruct (lookup _ _).
+      + destruct (adv_fault a (n + 1)); [intros H; injection H as <- <- <- _; repeat split; auto; discriminate|].
+        destruct (lookup _ _); intros H; injection H as <- <- <- _; repeat split; auto; discriminate.
+      + destruct (s_opt s) eqn:Eo; intros H; injection H as <- <- <- _; repeat split; auto; discriminate.
+  Qed.
+
+  Lemma get_valuesx_facts a tns srcs : forall n w cfg retry w' evs vr n' rs,
+    get_valuesx a n w tns srcs cfg retry = (w', evs, vr, n', rs) ->
+    w_sink w' = w_sink w /\ w_env w' = w_env w /\ w_tmpl w' = w_tmpl w /\ target_writes evs = [] /\
+    forall c rt, vr = VXOk c rt -> length rs = length srcs /\ cfg_of_reads srcs rs cfg = Some c.
+  Proof.
+    induction srcs as [|s rest IH]; intros n w cfg retry w' evs vr n' rs H; cbn in H.
+    - injection H as <- <- <- _ <-. repeat split; auto; injection H as <- _; reflexivity.
+    - destruct (get_sourcex a n w tns s) as [[[w1 e1] sr] n1] eqn:Es.
+      destruct (get_sourcex_facts _ _ _ _ _ _ _ _ _ Es) as (S1 & S2 & S3 & S4 & S5).
+      destruct sr as [nf|c0| |o].
+      + injection H as <- <- <- _ <-. repeat split; auto; discriminate.
+      + injection H as <- <- <- _ <-. repeat split; auto; discriminate.
+      + destruct (get_valuesx a n1 w1 tns rest cfg true) as [[[[w2 e2] res] n2] rs2] eqn:E2. injection H as <- <- <- _ <-.
+        destruct (IH _ _ _ _ _ _ _ _ _ E2) as (T1 & T2 & T3 & T4 & T5).
+        split; [congruence|split; [congruence|split; [congruence|split; [now rewrite target_writes_app, S4, T4|]]]].
+        intros cX rX Hc; destruct (T5 cX rX Hc) as [L C]. split; cbn; [now rewrite L|now rewrite (S5 eq_refl)].
+      + destruct (copy_vals (s_items s) (o_data o) cfg) as [cfg'|] eqn:Ec.
+        * destruct (get_valuesx a n1 w1 tns rest cfg' retry) as [[[[w2 e2] res] n2] rs2] eqn:E2. injection H as <- <- <- _ <-.
+          destruct (IH _ _ _ _ _ _ _ _ _ E2) as (T1 & T2 & T3 & T4 & T5).
+          split; [congruence|split; [congruence|split; [congruence|split; [now rewrite target_writes_app, S4, T4|]]]].
+          intros cX rX Hc; destruct (T5 cX rX Hc) as [L C]. split; cbn; [now rewrite L|now rewrite Ec].
+        * injection H as <- <- <- _ <-. repeat split; auto; discriminate.
+  Qed.
+
+  (** what a pass with third parties and faults writes, if anything, is the render of exactly what it read *)
+  Definition rendered_reads (t : tmpl) (env : N) (rs : list (option data)) (k : key) (d : data) : Prop :=
+    exists cfg k0 orefs,
+      length rs = length (t_sources t) /\ cfg_of_reads (t_sources t) rs [] = Some cfg /\
+      render (t_code t) cfg env = RObj k0 d orefs /\ pf_violation (t_ns t) k0 orefs = false /\ k = eff_key (t_ns t) k0.
+
+  Lemma reconcilex_facts a n w t w' evs t' rq err n' rs : reconcilex a n w t = (w', evs, t', rq, err, n', rs) ->
+    w_sink w' = w_sink w /\ w_env w' = w_env w /\
+    (target_writes evs = [] \/ exists k d, target_writes evs = [(k, d)] /\ rendered_reads t (w_env w) rs k d).
+  Proof.
+    unfold Template.reconcilex.
+    destruct (get_valuesx a n w (t_ns t) (t_sources t) [] false) as [[[[w1 e1] vr] n1] rs1] eqn:Ev.
+    destruct (get_valuesx_facts _ _ _ _ _ _ _ _ _ _ _ _ Ev) as (S1 & S2 & S3 & S4 & S5). intros H.
+    destruct vr as [nf|c0|cfg retry]; try (injection H as <- <- _ _ _ _ <-; auto; fail).
+    destruct (S5 cfg retry eq_refl) as [L C].
+    destruct (template_object t cfg (w_env w1)) as [| | |k body] eqn:Eto; try (injection H as <- <- _ _ _ _ <-; auto; fail).
+    rewrite S2 in Eto. destruct (tobj_inv _ _ _ _ _ Eto) as (k0 & orefs & Hr & Hpf & Hk).
+    assert (Hrr : rendered_reads t (w_env w) rs1 k body) by (exists cfg, k0, orefs; auto).
+    cbn [w_store with_watch] in H. unfold req in H. cbn [w_store with_watch with_store] in H.
+    destruct (cache_get (w_store w1) k) as [ex|].
+    - destruct (copy_conds t ex).
+      + destruct (adv_fault a n1); [|destruct (lookup (nkey k) _); [destruct (update_res k)|]];
+          injection H as <- <- _ _ _ _ <-; (split; [assumption|split; [assumption|]]);
+          rewrite target_writes_app, S4; cbn; try (left; reflexivity); right; eauto.
+      + injection H as <- <- _ _ _ _ <-. split; [assumption|split; [assumption|]]. left. now rewrite target_writes_app, S4.
+    - destruct (adv_fault a n1); [|destruct (create_res _ k)];
+        injection H as <- <- _ _ _ _ <-; (split; [assumption|split; [assumption|]]);
+        rewrite target_writes_app, S4; cbn; try (left; reflexivity); right; eauto.
+  Qed.
+
+  Theorem passx_reads a w t w' r rs : w_tmpl w = Some t -> passx a w = (w', r, rs) ->
+    forall k d, In (k, d) (target_writes (p_evs r)) ->
+      target_writes (p_evs r) = [(k, d)] /\ rendered_reads (set_fin t true) (w_env w) rs k d.
+  Proof.
+    intros Ht H k d Hin. unfold Template.passx, req in H. cbn [w_tmpl w_store w_watch with_store with_watch] in H.
+    destruct (adv_fault a 0) as [[|]|]; try (injection H as _ <- _; contradiction).
+    rewrite Ht in H. destruct (t_del t).
+    - destruct (t_fin t); [destruct (adv_fault a 1)|]; injection H as _ <- _; contradiction.
+    - destruct (t_fin t) eqn:Ef.
+      + destruct (reconcilex a 1 _ (set_fin t true)) as [[[[[[w2 e1] t1] rq] err] n2] rs2] eqn:Er.
+        destruct (reconcilex_facts _ _ _ _ _ _ _ _ _ _ _ Er) as (_ & _ & Hw). cbn [w_env with_tmpl with_store] in Hw.
+        assert (Hev : target_writes (p_evs r) = target_writes e1 /\ rs = rs2).
+        { destruct (err =? 0); [destruct (adv_fault a n2)|]; injection H as _ <- <-; cbn [p_evs];
+            unfold target_writes; cbn; rewrite ?flat_map_app; cbn; rewrite ?app_nil_r; auto. }
+        destruct Hev as [Hev ->]. rewrite Hev in Hin |- *.
+        destruct Hw as [Hw|(k1 & d1 & Hw & Hrr)]; rewrite Hw in Hin |- *; [contradiction|].
+        destruct Hin as [E|[]]. injection E as <- <-. auto.
+      + destruct (adv_fault a 1); [injection H as _ <- _; contradiction|].
+        destruct (reconcilex a 2 _ (set_fin t true)) as [[[[[[w2 e1] t1] rq] err] n2] rs2] eqn:Er.
+        destruct (reconcilex_facts _ _ _ _ _ _ _ _ _ _ _ Er) as (_ & _ & Hw). cbn [w_env with_tmpl with_store] in Hw.
+        assert (Hev : target_writes (p_evs r) = target_writes e1 /\ rs = rs2).
+        { destruct (err =? 0); [destruct (adv_fault a n2)|]; injection H as _ <- <-; cbn [p_evs];
+            unfold target_writes; cbn; rewrite ?flat_map_app; cbn; rewrite ?app_nil_r; auto. }
+        destruct Hev as [Hev ->]. rewrite Hev in Hin |- *.
+        destruct Hw as [Hw|(k1 & d1 & Hw & Hrr)]; rewrite Hw in Hin |- *; [contradiction|].
+        destruct Hin as [E|[]]. injection E as <- <-. auto.
+  Qed.
+
+  (** a read that is missing for a required source rules out the write *)
+  Lemma cfg_of_reads_required srcs : forall rs cfg c, cfg_of_reads srcs rs cfg = Some c ->
+    forall i s, nth_error srcs i = Some s -> s_opt s = false -> exists d, nth_error rs i = Some (Some d).
+  Proof.
+    induction srcs as [|s0 r IH]; intros rs cfg c H i s Hi Ho; [destruct i; discriminate|].
+    destruct rs as [|[d|] rr]; cbn in H; try discriminate.
+    - destruct (copy_vals (s_items s0) d cfg) eqn:E; [|discriminate].
+      destruct i; cbn in Hi |- *; [eauto|]. eapply IH; eauto.
+    - destruct (s_opt s0) eqn:E0; [|discriminate].
+      destruct i; cbn in Hi |- *; [injection Hi as <-; congruence|]. eapply IH; eauto.
+  Qed.
+
+  Lemma passx_sink a w w' r rs : passx a w = (w', r, rs) -> w_sink w' = w_sink w /\ w_env w' = w_env w.
+  Proof.
+    unfold Template.passx, req. cbn [w_tmpl w_store w_watch with_store with_watch].
+    destruct (adv_fault a 0) as [[|]|]; try (intros H; injection H as <- _ _; auto; fail).
+    destruct (w_tmpl w) as [t|]; [|intros H; injection H as <- _ _; auto].
+    destruct (t_del t).
+    - destruct (t_fin t); [destruct (adv_fault a 1)|]; intros H; injection H as <- _ _; auto.
+    - destruct (t_fin t).
+      + destruct (reconcilex a 1 _ _) as [[[[[[w2 e1] t1] rq] err] n2] rs2] eqn:Er.
+        destruct (reconcilex_facts _ _ _ _ _ _ _ _ _ _ _ Er) as (H1 & H2 & _).
+        destruct (err =? 0); [destruct (adv_fault a n2)|]; intros H; injection H as <- _ _; auto.
+      + destruct (adv_fault a 1); [intros H; injection H as <- _ _; auto|].
+        destruct (reconcilex a 2 _ _) as [[[[[[w2 e1] t1] rq] err] n2] rs2] eqn:Er.
+        destruct (reconcilex_facts _ _ _ _ _ _ _ _ _ _ _ Er) as (H1 & H2 & _).
+        destruct (err =? 0); [destruct (adv_fault a n2)|]; intros H; injection H as <- _ _; auto.
+  Qed.
+
+  Theorem fresh_step w s : fresh w -> fresh (fst (do_step w s)).
+  Proof.
+    unfold fresh. intros Hf. destruct s; cbn [Template.do_step]; unfold note.
+    - destruct (lookup k (w_store w)); [destruct (data_eqb (o_data o) d)|]; exact Hf.
+    - destruct (lookup k (w_store w)); exact Hf.
+    - destruct (lookup k (w_store w)); exact Hf.
+    - destruct (w_tmpl w); exact Hf.
+    - destruct (w_tmpl w) as [t|]; [destruct (t_fin t)|]; exact Hf.
+    - reflexivity.
+    - reflexivity.
+    - reflexivity.
+    - exact Hf.
+    - destruct (passx a w) as [[w' r] rs] eqn:Ep. destruct (passx_sink _ _ _ _ _ Ep) as [H1 H2]. cbn. congruence.
+    - destruct (pass w) as [w' r] eqn:Ep. destruct (pass_sink _ _ _ Ep) as [H1 H2]. cbn. congruence.
+    - destruct (w_pending w); [|exact Hf]. destruct (pass w) as [w' r] eqn:Ep. destruct (pass_sink _ _ _ Ep) as [H1 H2]. cbn. congruence.
+  Qed.
+
+  Theorem fresh_history ss : forall w, fresh w -> fresh (final w ss).
+  Proof.
+    induction ss as [|s r IH]; intros w Hf; [exact Hf|].
+    change (final w (s :: r)) with (final (fst (do_step w s)) r). apply IH. now apply fresh_step.
+  Qed.
+
+  (** what another template of the same controller renders for the HyperShift part depends on the sink state
+      now and its namespace only *)
+  Theorem aux_render w ns : do_step w (@SAux code ns) = (w, OAux (hval (w_sink w) ns)).
+  Proof. reflexivity. Qed.
 End Proofs.
 
 (** * History of the namespace clause. Against the namespace check as it was before aa47ee3
@@ -1438,8 +1644,8 @@ Module Witness.
   (** a namespaced template in namespace 1 whose source is the cluster-scoped object 3/-/1, written as 3/1/1 *)
   Definition src_cluster : source := {| s_kind := 3; s_ns := 1; s_name := 1; s_opt := false; s_items := [(1, 1)] |}.
   Definition src_cm : source := {| s_kind := 1; s_ns := 0; s_name := 1; s_opt := false; s_items := [(1, 1)] |}.
-  Definition w_src : world unit := {| w_store := [((3, 0, 1), thing)]; w_tmpl := Some (tm [src_cluster]); w_watch := []; w_env := 0; w_pending := false |}.
-  Definition w_tgt : world unit := {| w_store := [((1, 1, 1), cm)]; w_tmpl := Some (tm [src_cm]); w_watch := []; w_env := 0; w_pending := false |}.
+  Definition w_src : world unit := {| w_store := [((3, 0, 1), thing)]; w_tmpl := Some (tm [src_cluster]); w_watch := []; w_env := 0; w_sink := {| sk_ver := 0; sk_hs := false; sk_hcs := []; sk_ns := 1 |}; w_pending := false |}.
+  Definition w_tgt : world unit := {| w_store := [((1, 1, 1), cm)]; w_tmpl := Some (tm [src_cm]); w_watch := []; w_env := 0; w_sink := {| sk_ver := 0; sk_hs := false; sk_hcs := []; sk_ns := 1 |}; w_pending := false |}.
 End Witness.
 
 Theorem v0_namespace_bound_refuted :
